@@ -13,7 +13,7 @@ KDIR = os.path.join(D.VERIF, 'kani')
 
 HARNESSES = {
     'csi_dispatch_routes_every_final': dict(
-        props=['C03', 'C05', 'C06', 'C07', 'C12', 'C13', 'C18', 'C01'],
+        props=['C03', 'C05', 'C06', 'C07', 'C08', 'C12', 'C13', 'C18', 'C01'],
         what='csi_dispatch: every final byte 0x20..0x7e x params of length 0..4 (any u32; list length is the stated bound) x private flag is routed to the documented listener method with the documented parameter positions (first=row, second=column); unknown finals call nothing; no panic'),
     'escape_dispatch_routes_every_final': dict(
         props=['C03', 'C15', 'C14', 'C06', 'C18', 'C01'],
